@@ -155,6 +155,16 @@ theorem fvText_ne_nil (v : FV) (hv : fieldValOK v = true) : fvText v ≠ [] := b
   | bool b => cases b <;> decide
   | str s => simp [fvText]
 
+/-- a rendered value is never a lone quote -/
+theorem fvText_ne_quote (v : FV) (hv : fieldValOK v = true) : fvText v ≠ [cQuote] := by
+  by_cases hs : ∃ s, v = .str s
+  · obtain ⟨s, rfl⟩ := hs
+    simp [fvText]
+  · have hp := plainTok_fvText v hv (fun s h => hs ⟨s, h⟩)
+    intro e
+    have := hp cQuote (by rw [e]; simp)
+    exact this.1 rfl
+
 /-! ### walkFields and the iterator over all fields -/
 
 def fieldsText (fs : List (Bytes × FV)) : Bytes := joinCommaB (fs.map fun f => appendField f.1 f.2)
@@ -193,6 +203,7 @@ theorem walkFieldsCheck_succ (keyLen fuel : Nat) (buf : Bytes) (h : buf ≠ []) 
       if (scanTo cEq false buf).2.length < 2 then .error (.invalidValue (scanTo cEq false buf).1)
       else if keyLen + 4 + (scanTo cEq false buf).1.length > MaxKeyLength then
         .error (.maxKey (keyLen + 4 + (scanTo cEq false buf).1.length))
+      else if (scanFieldValue false false ((scanTo cEq false buf).2.drop 1)).1 = [cQuote] then .error .unbalancedQuotes
       else walkFieldsCheck keyLen fuel ((scanFieldValue false false ((scanTo cEq false buf).2.drop 1)).2.drop 1) := by
   cases buf with
   | nil => exact absurd rfl h
@@ -219,6 +230,8 @@ theorem walkFieldsCheck_fields (fs : List (Bytes × FV)) (keyLen : Nat)
       | cons c t => simp
     simp only [h2, if_false, List.drop_succ_cons, List.drop_zero]
     rw [if_neg (by omega), scanFieldValue_fvText f.2 hv _ (fieldsTail_isTail rest), fieldsTail_drop]
+    simp only
+    rw [if_neg (fvText_ne_quote f.2 hv)]
     exact ih (fun g hg => hall g (by simp [hg])) n (by simp at hf; omega)
 
 /-- the iterator's view of a rendered field -/
